@@ -104,3 +104,27 @@ Proof. vm_compute. repeat split; reflexivity. Qed.
 Example ex_fault_missing :
   resolve ex_reg 9 = None /\ resolve_rec ex_reg ex_set 1 9 false [] None = Err (ETypeNotFound 9).
 Proof. vm_compute. split; reflexivity. Qed.
+
+(** ** the clause [compact_inner_okb] is needed: a struct [a::P { x: Compact<(u8, u8)> }].
+    Every other clause of [wf_regb] holds, generation is [Ok], but printing the compact field
+    panics ([parse_quote!( #inner )] into a [syn::TypePath] with [#inner = (u8, u8,)]);
+    resolving the Compact entry itself (not as a field) is fine. *)
+Definition ex_ctuple_reg : registry :=
+  [ (0, mk_ty [] [] (TDPrimitive PU8) []);
+    (1, mk_ty [] [] (TDTuple [0; 0]) []);
+    (2, mk_ty [] [] (TDCompact 1) []);
+    (3, mk_ty ["a"; "P"] [] (TDComposite [mk_field (Some "x") 2 (Some "Compact<(u8, u8)>") []]) []) ].
+
+Example ex_ctuple_not_wf :
+  wf_regb ex_ctuple_reg = false /\ compact_inner_okb ex_ctuple_reg = false /\
+  ids_consistent ex_ctuple_reg && closed_reg ex_ctuple_reg && rank_ok ex_ctuple_reg &&
+    forallb (fun e => entry_wfb (snd e)) ex_ctuple_reg = true /\
+  supportedb ex_ctuple_reg ex_set = true.
+Proof. vm_compute. repeat split; reflexivity. Qed.
+
+Example ex_ctuple_panics :
+  (exists m, generate ex_ctuple_reg ex_set (types_equal ex_ctuple_reg) = Ok m /\
+             emit_module ex_set m = Panic "compact field: inner type is not a type path") /\
+  (exists t toks, resolve_type_path ex_ctuple_reg ex_set 2 = Ok t /\
+                  tp_tokens (alloc_tokens (s_alloc ex_set)) t = Ok toks).
+Proof. vm_compute. split; eexists; [split; reflexivity|eexists; split; reflexivity]. Qed.
